@@ -161,13 +161,15 @@ RelevantRules(s) == UNION {{s[o].kind, IF s[o].parent = 0 THEN s[o].kind
                              : o \in 1..Len(s)}
 FullTables == atoi(IOEnv.VT_FULLTABLES)
 \* every (processors, replacing processors) table over the rules that matter for the shape;
-\* for shapes with more than FullTables objects: all replacement subsets with every rule
-\* registered, and all registration subsets without replacement
+\* for shapes with more than FullTables objects: every replacement subset with all rules
+\* registered, every table that leaves out one rule (or all) without replacement -- for each
+\* object that is every combination of own/declared rule registered and, with both
+\* registered, of own/declared processor replacing
 Tables(s) ==
   LET rel == RelevantRules(s) IN
   SetToSeq(IF Len(s) <= FullTables
            THEN {<<P, R>> \in (SUBSET rel) \X (SUBSET rel) : R \subseteq P}
-           ELSE {<<rel, R>> : R \in SUBSET rel} \cup {<<P, {}>> : P \in SUBSET rel})
+           ELSE {<<rel, R>> : R \in SUBSET rel} \cup {<<rel \ {r}, {}>> : r \in rel} \cup {<<{}, {}>>})
 
 C13Scenarios(u) ==
   LET S == Shapes IN
